@@ -265,6 +265,8 @@ def get_claim_cls_by_response_type(response_type):
 
 
 def _verify_hash(signature, s, alg):
+    if not isinstance(signature, str):
+        return False
     hash_value = create_half_hash(s, alg)
     if not hash_value:
         return True
